@@ -75,7 +75,7 @@ Definition payloads_of (c : vcodec) (maxp : N) (nal : bytes) : list bytes :=
   match pack_nal true c nal maxp with Ok pls => pls | _ => [] end.
 
 Definition video_unit (c : vcodec) (maxp rate : N) (tn : N * bytes) : wire_unit :=
-  (fst tn, payloads_of c maxp (snd tn), [(fst tn / (rate / 1000), avcc (snd tn))%N]).
+  (fst tn, payloads_of c maxp (snd tn), [(rtp_ms rate (fst tn), avcc (snd tn))%N]).
 
 Definition nal_ok (c : vcodec) (nal : bytes) : Prop :=
   nal <> [] /\ (nth 0 nal 0 < 256)%N /\ single_type_ok c nal.
@@ -124,9 +124,9 @@ Qed.
 
 (* ---- lal's audio packers ---- *)
 Definition aac_unit (maxp rate : N) (tf : N * bytes) : wire_unit :=
-  (fst tf, pack_aac (snd tf) maxp, [(fst tf / (rate / 1000), snd tf)%N]).
+  (fst tf, pack_aac (snd tf) maxp, [(rtp_ms rate (fst tf), snd tf)%N]).
 Definition raw_unit (maxp rate : N) (tf : N * bytes) : wire_unit :=
-  (fst tf, pack_raw (snd tf) maxp, [(fst tf / (rate / 1000), snd tf)%N]).
+  (fst tf, pack_raw (snd tf) maxp, [(rtp_ms rate (fst tf), snd tf)%N]).
 
 Lemma aac_unit_ok maxp rate tf :
   (0 < maxp)%N -> rate_ok rate -> (lenN (snd tf) < 8192)%N -> unit_ok PAac rate (aac_unit maxp rate tf).
